@@ -48,7 +48,12 @@ var (
 	edges    = map[edge]bool{}
 	// whole-function locks: fn acquires mu at the top level of its body and releases it by defer
 	fnLocks []string
+	// calls of designated bookkeeping methods with the locks lexically held at the call
+	calls []string
 )
+
+// trackedCallees are methods whose callers must hold a lock the callee cannot take itself.
+var trackedCallees = map[string]bool{"addReadErr": true, "addSendErr": true, "handleModifyResponse": true}
 
 // topLevelLocks records the mutexes a function holds from a top-level Lock()/RLock() statement
 // until it returns (released by a deferred Unlock()/RUnlock() at the top level).
@@ -191,6 +196,10 @@ func (w *walker) expr(e ast.Expr) {
 			sub := &walker{fset: w.fset, file: w.file, fn: w.fn + ".func", held: w.copyHeld()}
 			sub.block(v.Body)
 			return false
+		case *ast.CallExpr:
+			if sel, ok := v.Fun.(*ast.SelectorExpr); ok && trackedCallees[sel.Sel.Name] && w.fset != nil {
+				calls = append(calls, fmt.Sprintf("(%s, %s, %s, %d)", leanStr(w.fn), leanStr(sel.Sel.Name), leanLocks(w.held), w.fset.Position(v.Pos()).Line))
+			}
 		case *ast.SelectorExpr:
 			if fieldOf(v) != "" {
 				w.record(v, false)
@@ -448,7 +457,7 @@ func main() {
 		es = append(es, fmt.Sprintf("(%s, %s)", leanStr(e.from), leanStr(e.to)))
 	}
 	sort.Strings(es)
-	b.WriteString("]\n\n/-- (held, then acquired) -/\ndef lockEdges : List (String × String) := [" + strings.Join(es, ", ") + "]\n\n/-- (function, mutex, exclusive): held from a top-level Lock until return (deferred Unlock) -/\ndef fnLocks : List (String × String × Bool) := [\n  " + strings.Join(fnLocks, ",\n  ") + "\n]\n\nend Gribi.Facts\n")
+	b.WriteString("]\n\n/-- (held, then acquired) -/\ndef lockEdges : List (String × String) := [" + strings.Join(es, ", ") + "]\n\n/-- (function, mutex, exclusive): held from a top-level Lock until return (deferred Unlock) -/\ndef fnLocks : List (String × String × Bool) := [\n  " + strings.Join(fnLocks, ",\n  ") + "\n]\n\n/-- (calling function, callee, locks held at the call, line) -/\ndef calls : List (String × String × List (String × Bool) × Nat) := [\n  " + strings.Join(calls, ",\n  ") + "\n]\n\nend Gribi.Facts\n")
 	if *out == "" {
 		fmt.Print(b.String())
 		return
